@@ -55,7 +55,7 @@ def impl_query(c: dict, e, p):
     if via == "derivative-point":
         return call(lambda: sm.Derivative(e).at(p)), f"route DL x {c['e']} {c['p']}"
     names = sorted(e._variable_names)
-    t = p._coordinates.get(names[0], 1) if names else 1
+    t = wire.coords(p).get(names[0], 1) if names else 1
     return call(lambda: sm.Derivative(e).at(t)), f"dnum 0 {c['e']} {wire.num(t)}"
 
 
@@ -69,7 +69,7 @@ def persistent_query(c: dict, e, p, first):
         return first
     obj = obj[1]
     others = [wire.build_point(q) for q in c.get("prior", [])]
-    others.append(Point(**{k: v + 0.75 for k, v in p._coordinates.items()}))
+    others.append(Point(**{k: v + 0.75 for k, v in wire.coords(p).items()}))
     call(obj.at, p)
     for k, q in enumerate(others):
         call(e.at, q)
